@@ -200,7 +200,8 @@ class MagicNumberRule(MultiLanguageLintRule):  # thailint: ignore[srp]
     def _find_numeric_literals(self, tree: ast.AST) -> list:
         """Find all numeric literals in AST."""
         analyzer = PythonMagicNumberAnalyzer()
-        return analyzer.find_numeric_literals(tree)
+        literals = analyzer.find_numeric_literals(tree)
+        return [info for info in literals if not analyzer.defines_constant(info[0])]
 
     def _collect_violations(
         self, numeric_literals: list, context: BaseLintContext, config: MagicNumberConfig
